@@ -216,6 +216,8 @@ type Ctx struct {
 	Res  sbx.Result
 	H    *History
 	Tmp  map[string]interface{} // data gathered by Before hooks for this step
+
+	ranGoit bool
 }
 
 // IsGoit reports whether the step is `goit <sub> …`.
@@ -245,6 +247,9 @@ type Exec struct {
 	H   *History
 	Cur *Obs
 	Sc  *Scenario
+
+	hostileMsgs bool
+	fullContent bool
 }
 
 func NewExec(p *Profile) *Exec {
@@ -305,7 +310,17 @@ func (e *Exec) Do(st Step) error {
 	if e.P.Classify != nil {
 		e.P.Classify(c)
 	}
+	if c.ranGoit {
+		// oracles ran read-only commands: the next step starts from what is on disk now
+		e.Cur = Observe(e.Box)
+	}
 	return nil
+}
+
+// Goit runs a (read-only) goit command on behalf of an oracle.
+func (c *Ctx) Goit(args ...string) sbx.Result {
+	c.ranGoit = true
+	return c.Box.Run(args...)
 }
 
 func resultBrief(c *Ctx) string {
